@@ -104,6 +104,30 @@ pub fn db_text_variant(v: u32) -> String {
         }
         out.push_str(&l);
         out.push('\n');
+        if (t.starts_with("[tcp:request]") || t.starts_with("[tcp:response]")) && r.chance(2, 3) {
+            // signatures for what the simulated hosts send without an MSS option (option layouts nop,nop,ts and none),
+            // under a label of this section's own: the same observation is then known to both sections, differently
+            let which = if t.starts_with("[tcp:request]") { "Req" } else { "Resp" };
+            out.push_str(&format!("label = s:unix:SimBare{}:1\n", which));
+            for ttl in ["64", "128", "255"] {
+                for layout in ["nop,nop,ts", "nop,nop,ts,eol+0"] {
+                    for quirks in ["df,id+", "df,id+,ts2+", "df,id+,ack+", "df,id+,ts1-", "df", "df,id-", "id+", ""] {
+                        for pclass in ["0", "+"] {
+                            out.push_str(&format!("sig   = *:{}:0:*:*,*:{}:{}:{}\n", ttl, layout, quirks, pclass));
+                        }
+                    }
+                }
+            }
+            out.push('\n');
+        }
+        if t.starts_with("ua_os") && v % 6 == 0 {
+            // one rewrite in six carries a signature with a header list of tens of thousands of (optional) entries
+            let mut list = String::from("Host");
+            for k in 0..60_000 {
+                list.push_str(&format!(",?X-P{}", k));
+            }
+            out.push_str(&format!("\nlabel = s:!:SimLongList:1\nsys   = @unix\nsig   = *:{}::SimLongList\n", list));
+        }
         if t.starts_with("[mtu]") && r.chance(1, 2) {
             // a link type of its own that repeats values listed further down under other labels
             out.push_str("label = metro Ethernet\nsig   = 1500\nsig   = 1504\nsig   = 1492\nsig   = 576\n");
@@ -488,6 +512,21 @@ impl Sut {
     }
 }
 
+impl Sut {
+    /// the application replaces the filter of a used analyzer instance
+    pub fn refilter(self, f: &FilterSpec) -> Sut {
+        match self {
+            Sut::Unified(a, _) => {
+                let ff = filter_tcp(f);
+                Sut::Unified(Box::new((*a).with_filter(ff.clone())), Some(ff))
+            }
+            Sut::Tcp(a, t) => Sut::Tcp(Box::new((*a).with_filter(filter_tcp(f))), t),
+            Sut::Http(a) => Sut::Http(Box::new((*a).with_filter(filter_http(f)))),
+            Sut::Tls(a) => Sut::Tls(Box::new((*a).with_filter(filter_tls(f)))),
+        }
+    }
+}
+
 fn err_variant(dbg: &str) -> String {
     dbg.split('(').next().unwrap_or("").to_string()
 }
@@ -525,6 +564,13 @@ pub fn run_loop(cfg: &SutCfg, trace: &[Timed]) -> Result<Vec<PktOut>, String> {
 /// analyzer instance is started again on the rest (fault: the capture source ends and restarts).
 #[cfg(not(huginn_net_verif_sched))]
 pub fn run_loop_breaks(cfg: &SutCfg, trace: &[Timed], breaks: &[usize]) -> Result<Vec<PktOut>, String> {
+    run_loop_refilter(cfg, trace, breaks, &[])
+}
+
+/// As `run_loop_breaks`; in addition, at a break listed in `refilters` the application installs another filter
+/// on the same analyzer instance (`with_filter`) before it starts the next capture run.
+#[cfg(not(huginn_net_verif_sched))]
+pub fn run_loop_refilter(cfg: &SutCfg, trace: &[Timed], breaks: &[usize], refilters: &[(usize, FilterSpec)]) -> Result<Vec<PktOut>, String> {
     use std::cell::RefCell;
     use std::sync::mpsc;
     let n = trace.len();
@@ -563,6 +609,10 @@ pub fn run_loop_breaks(cfg: &SutCfg, trace: &[Timed], breaks: &[usize]) -> Resul
     let mut s = Sut::new(cfg)?;
     for end in ends {
         *stop_at.borrow_mut() = end;
+        let start = *idx.borrow();
+        if let Some((_, f)) = refilters.iter().find(|(at, _)| *at == start && start > 0) {
+            s = s.refilter(f);
+        }
         match &mut s {
             Sut::Unified(a, _) => drive!(a, huginn_net::error::HuginnNetError, |r: &huginn_net::output::FingerprintResult| obs_uni(r)),
             Sut::Tcp(a, _) => drive!(a, huginn_net_tcp::HuginnNetTcpError, |r: &huginn_net_tcp::TcpAnalysisResult| obs_tcp(r)),
